@@ -254,3 +254,46 @@ func c01EmptyFrameCursorRule(c *Ctx, rule string) {
 		}
 	}
 }
+
+// C01.h — the renderer's SGR deltas, interpreted by a reference SGR interpreter (the library's own parseSGR),
+// reproduce the next cell's attributes for every ordered pair of attribute masks and mixed transitions, under
+// every rgb/styledUnderlines capability combination. The machinery is C18's (rule C18.b), restricted to the
+// producer render; it is run here because a renderer that mis-encodes an attribute transition violates C01 too.
+func init() { registerExtra("C01", c01SGRAlgebra) }
+
+func c01SGRAlgebra(c *Ctx) {
+	c.Clauses = append(c.Clauses, "C01.h the renderer's SGR deltas decode (parseSGR) to the next cell's style for all 128x128 attribute-mask pairs and mixed transitions, under every rgb/styledUnderlines combination")
+	c.expect("C01.h", 4)
+	sub := &Ctx{Prop: c.Prop, Tier: c.Tier, P: c.P, counts: map[string]int{}, minima: map[string]int{}, verifDir: c.verifDir}
+	w := &c18World{c: sub, p: c.P, pk: c.P.Pkg("vaxis")}
+	if w.pk == nil {
+		c.undecided("C01.h", "setup", 0, "package vaxis not loaded")
+		return
+	}
+	w.m = newC18Machine(c.P)
+	if why := w.setup(); why != "" {
+		c.undecided("C01.h", "setup", 0, "%s", why)
+		return
+	}
+	cons, why := w.streamConsumer("vaxis.parseSGR")
+	if cons == nil {
+		c.undecided("C01.h", "vaxis.parseSGR", 0, "reference consumer not recognised: %s", why)
+		return
+	}
+	var producers []*c18Producer
+	for _, caps := range [][2]bool{{true, true}, {false, true}, {true, false}, {false, false}} {
+		p, _, why := w.renderProducer("vaxis.(*Vaxis).render", caps[0], caps[1], false)
+		if p == nil {
+			c.undecided("C01.h", "vaxis.(*Vaxis).render", 0, "producer not recognised: %s", why)
+			return
+		}
+		producers = append(producers, p)
+	}
+	w.ruleAlgebra(producers, []*c18Consumer{cons})
+	for _, o := range sub.Obs {
+		key := strings.TrimPrefix(o.Key, o.Rule+"/")
+		n := &Obligation{Prop: c.Prop, Rule: "C01.h", Key: "C01.h/" + key, Pos: o.Pos, Status: o.Status, Reason: o.Reason, Nontrivial: o.Nontrivial}
+		c.Obs = append(c.Obs, n)
+		c.counts["C01.h"]++
+	}
+}
